@@ -8,6 +8,10 @@ Future-based pops (`pop`) carry the consumer label 0.  `cons n` starts a corouti
 up to `n` times, re-issuing `pop()` the moment its previous pop was resolved with a value (inside the resumption,
 i.e. before the operation that woke it returns) and stopping at the first exception.  The sequential harness has no
 second thread, so every in-flight resolution is performed right after the lock region that decided it.
+
+Kinds `sq` / `svq` (harness `run_sqcase`): the harness parks an operation after a lock region that moved a promise
+out of `_awaiters`; the resolution is performed when the input says `deliver k` (= `Op.deliver k` of the model).
+`destroy` / `end` first perform every outstanding resolution (the queue must not die under a running call).
 -/
 open Cocls Cocls.Proto Cocls.Q
 
@@ -32,6 +36,7 @@ structure DState (σ : Type) where
   st : σ
   loops : List (Nat × Nat) := []
   nextCons : Nat := 1
+  sched : Bool := false     -- `sq` / `svq`: resolutions are performed by explicit `deliver k` lines
 
 /-- an event to print: `(pop id, 0 = issued and parked | 1 = resolved, text)` -/
 abbrev PEv := Nat × Nat × String
@@ -79,8 +84,9 @@ def evOf (e : Ev) : PEv := (e.pop.id, 1, s!"pop#{e.pop.id}={outStr e.out}")
 /-- one model operation followed by everything that happens before the real call returns -/
 def doOp {σ} (m : Mach σ) (d : DState σ) (op : Op) : DState σ × Res × List PEv :=
   let n0 := (m.completed d.st).length
-  let (s1, r) := m.step d.st op
-  let s2 := flush m s1 ((m.inflight s1).length + 1)
+  let s0 := if op == Op.destroy then flush m d.st ((m.inflight d.st).length + 1) else d.st
+  let (s1, r) := m.step s0 op
+  let s2 := if d.sched then s1 else flush m s1 ((m.inflight s1).length + 1)
   let newEvs := (m.completed s2).drop n0
   let own : Option Nat := match r with
     | Res.pop id (some _) => some id
@@ -98,14 +104,25 @@ def parseOp (ws : List String) : Option Op :=
   | ["size"] => some Op.size
   | ["empty"] => some Op.empty
   | ["destroy"] => some Op.destroy
+  | ["deliver", k] => k.toNat?.map Op.deliver
   | _ => none
 
-def headOf (op : Op) (r : Res) : String :=
+/-- head of a `deliver k` line: which call returns now, with which result -/
+def deliverHead {σ} (m : Mach σ) (s : σ) (k : Nat) : String :=
+  match (m.inflight s)[k]? with
+  | none => "deliver none"
+  | some e => match e.out with
+    | Out.exc _ => "deliver upop 1"
+    | _ => "deliver push woke=1"
+
+def headOf (sched : Bool) (op : Op) (r : Res) : String :=
   match r with
-  | Res.push _ woke => "push woke=" ++ boolStr woke
+  | Res.push _ woke => if sched && woke then "push paused" else "push woke=" ++ boolStr woke
   | Res.pop id (some o) => s!"pop#{id} {outStr o}"
   | Res.pop id none => s!"pop#{id} pending"
-  | Res.flag b => (match op with | Op.upop _ => "upop " | _ => "empty ") ++ boolStr b
+  | Res.flag b => (match op with
+      | Op.upop _ => if sched && b then "upop paused" else "upop " ++ boolStr b
+      | _ => "empty " ++ boolStr b)
   | Res.num n => s!"size {n}"
   | Res.unit => "destroy"
   | Res.bad => "bad-op"
@@ -120,7 +137,7 @@ partial def caseLoop {σ} (m : Mach σ) (lines : Array String) (i : Nat) (d : DS
         IO.println (finish "end" evs)
         return i + 1
     | ["cons", n] =>
-        match n.toNat? with
+        match (if d.sched then none else n.toNat?) with
         | some n =>
             let (d', evs) := consume m d d.nextCons [] n
             IO.println (finish "cons" evs)
@@ -130,7 +147,10 @@ partial def caseLoop {σ} (m : Mach σ) (lines : Array String) (i : Nat) (d : DS
         match parseOp ws with
         | some op =>
             let (d', r, evs) := doOp m d op
-            IO.println (finish (headOf op r) evs)
+            let head := match op with
+              | Op.deliver k => if d.sched then deliverHead m d.st k else "bad-op"
+              | _ => headOf d.sched op r
+            IO.println (finish head evs)
             if op == Op.destroy then
               IO.println "end"
               -- the rest of the case is swallowed
@@ -151,6 +171,14 @@ partial def loop (lines : Array String) (i : Nat) : IO Unit := do
     | ("case" :: id :: "vq" :: _) =>
         IO.println s!"case {id}"
         let j ← caseLoop machV lines (i+1) { st := VQ.init }
+        loop lines j
+    | ("case" :: id :: "sq" :: _) =>
+        IO.println s!"case {id}"
+        let j ← caseLoop machQ lines (i+1) { st := Q.init, sched := true }
+        loop lines j
+    | ("case" :: id :: "svq" :: _) =>
+        IO.println s!"case {id}"
+        let j ← caseLoop machV lines (i+1) { st := VQ.init, sched := true }
         loop lines j
     | _ => loop lines (i+1)
   else return ()
